@@ -3,6 +3,7 @@ package node
 import (
 	"fmt"
 
+	"github.com/freeconf/yang/fc"
 	"github.com/freeconf/yang/meta"
 	"github.com/freeconf/yang/val"
 	"github.com/freeconf/yang/xpath"
@@ -12,7 +13,15 @@ type xpathImpl struct {
 }
 
 func (xp xpathImpl) resolvePath(seg *xpath.Path, s *Selection) (*Selection, error) {
-	m := meta.Find(s.Meta().(meta.HasDefinitions), seg.Ident)
+	if seg == nil {
+		// path ended on a container
+		return s, nil
+	}
+	parent, hasDefs := s.Meta().(meta.HasDefinitions)
+	if !hasDefs {
+		return nil, fmt.Errorf("%w. nothing below '%s' in xpath", fc.BadRequestError, s.Meta().Ident())
+	}
+	m := meta.Find(parent, seg.Ident)
 	if m == nil {
 		return nil, fmt.Errorf("'%s' not found in xpath", seg.Ident)
 	}
@@ -56,23 +65,39 @@ func (xp xpathImpl) resolvePath(seg *xpath.Path, s *Selection) (*Selection, erro
 		}
 		return s, nil
 	}
-	panic("type not supported " + m.Ident())
+	return nil, fmt.Errorf("%w. '%s' not supported in xpath", fc.BadRequestError, m.Ident())
 }
 
 func (xp xpathImpl) resolveExpression(name string, e xpath.Expression, sel *Selection) (bool, error) {
 	switch x := e.(type) {
 	case *xpath.Operator:
 		return xp.resolveOperator(x, name, sel)
+	case nil:
+		// no comparison, holds when the leaf has a value
+		leaf, err := sel.Find(name)
+		if err != nil || leaf == nil {
+			return false, err
+		}
+		v, err := leaf.Get()
+		return v != nil, err
 	}
-	panic("unknown xpath expression")
+	return false, fmt.Errorf("%w. unknown xpath expression", fc.BadRequestError)
 }
 
 func (xp xpathImpl) resolveOperator(oper *xpath.Operator, ident string, s *Selection) (bool, error) {
-	m := meta.Find(s.Meta().(meta.HasDefinitions), ident)
+	parent, hasDefs := s.Meta().(meta.HasDefinitions)
+	if !hasDefs {
+		return false, fmt.Errorf("%w. nothing below '%s' in xpath", fc.BadRequestError, s.Meta().Ident())
+	}
+	m := meta.Find(parent, ident)
 	if m == nil {
 		return false, fmt.Errorf("'%s' not found in xpath", ident)
 	}
-	b, err := NewValue(m.(meta.HasType).Type(), oper.Lhs)
+	typed, hasType := m.(meta.HasType)
+	if !hasType {
+		return false, fmt.Errorf("%w. '%s' has no value to compare in xpath", fc.BadRequestError, ident)
+	}
+	b, err := NewValue(typed.Type(), oper.Lhs)
 	if err != nil {
 		return false, err
 	}
@@ -94,7 +119,12 @@ func (xp xpathImpl) resolveOperator(oper *xpath.Operator, ident string, s *Selec
 	case "!=":
 		return !val.Equal(a, b), nil
 	default:
-		c := a.(val.Comparable).Compare(b.(val.Comparable))
+		ac, aok := a.(val.Comparable)
+		bc, bok := b.(val.Comparable)
+		if !aok || !bok {
+			return false, fmt.Errorf("%w. '%s' has no order to compare with %s in xpath", fc.BadRequestError, ident, oper.Oper)
+		}
+		c := ac.Compare(bc)
 		switch oper.Oper {
 		case "<":
 			return c < 0, nil
@@ -106,7 +136,7 @@ func (xp xpathImpl) resolveOperator(oper *xpath.Operator, ident string, s *Selec
 			return c <= 0, nil
 		}
 	}
-	panic("unrecognized operator: " + oper.Oper)
+	return false, fmt.Errorf("%w. unrecognized operator %s in xpath", fc.BadRequestError, oper.Oper)
 }
 
 func (xp xpathImpl) resolveAbsolutePath(s *Selection) (*Selection, error) {
